@@ -5701,13 +5701,15 @@ class NameCheckVisitor(node_visitor.ReplacingNodeVisitor):
                     )
                 )
 
-                if self.match_subject.value is NO_RETURN_VALUE:
-                    self._set_name_in_scope(LEAVES_SCOPE, node, NO_RETURN_VALUE)
-                else:
-                    with self.scopes.subscope() as else_scope:
+                with self.scopes.subscope() as else_scope:
+                    if self.match_subject.value is NO_RETURN_VALUE:
+                        # The match is exhaustive, so the path on which no case
+                        # matched is unreachable.
+                        self._set_name_in_scope(LEAVES_SCOPE, node, NO_RETURN_VALUE)
+                    else:
                         for constraint in constraints_to_apply:
                             self.add_constraint(node, constraint)
-                        subscopes.append(else_scope)
+                    subscopes.append(else_scope)
                 self.scopes.combine_subscopes(subscopes)
 
     # Attribute checking
